@@ -9,6 +9,7 @@ says: the successive calls of `Read` returned `r₁ … rₙ` with a nil error a
 import Biogo.Proofs.Fasta
 import Biogo.Proofs.Fastq
 import Biogo.Proofs.SeqFormat
+import Biogo.Proofs.FastaPrefix
 import Biogo.Generated.Seqio
 import Biogo.Generated.Alphabets
 
@@ -60,6 +61,18 @@ theorem fasta_roundtrip (recs : List Rec) (w : Nat) (hw : 1 ≤ w) (hwf : ∀ r 
 theorem fasta_write_count (wr : Writer) (sink sink' : Sink) (r : Rec) (n : Nat)
     (h : write wr sink r = .ok (sink', n)) : sink'.out.size = sink.out.size + n :=
   write_count wr sink sink' r n h
+
+/-- **The writer with user-set `IDPrefix` / `SeqPrefix`** (exported fields; `gff.Writer` sets them to
+    `##DNA ` / `##` for inline sequences): at any width ≥ 1 and for any record — no
+    well-formedness needed — `Write` emits `IDPrefix name [" " desc]`, then before every
+    `width`-th letter `"\n" SeqPrefix`, a final `"\n"`, and returns the number of these bytes. -/
+theorem fasta_write_layout_prefixes (cfg : Cfg) (w : Nat) (hw : w ≠ 0) (sink : Sink) (r : Rec) :
+    ∃ sink', write { cfg := cfg, width := w } sink r = .ok (sink', (renderCfg cfg w r).length) ∧
+      sink'.bytes = sink.bytes ++ renderCfg cfg w r := write_spec_cfg cfg w hw sink r
+
+-- with the default prefixes this is the layout of `fasta_roundtrip`
+example (w : Nat) (r : Rec) : renderCfg {} w r = render w r := by
+  simp only [renderCfg, render, ← header_eq]
 
 /-- the stronger statement behind the round trip (shared with C04): any layout of the
     records reads back as the records -/
